@@ -78,6 +78,7 @@ type dmSock struct {
 	protos     int           // network protocols its reservation covers: 1 IPv4, 3 IPv4+IPv6 (dual-stack IPv6 socket); 0 means 1
 	fake       *fakeEP       // registered directly with the stack's demultiplexer (no socket, no port reservation)
 	groups     []dmMember    // multicast groups this UDP socket has joined (and not left)
+	v6ep       bool          // the endpoint is an IPv6 (dual-stack) one, whatever its binding covers
 	closing    bool          // an actively opened connection the application has closed, whose closing exchange the peer has completed
 	boundOnly  bool          // a TCP socket that is bound (holds its port) but neither listens nor is connected: its Connect was refused
 	reopen     *Step         // the step that opened this actively opened connection (the same open again is refused locally)
@@ -418,7 +419,13 @@ func (w *dmWorld) openAt(kind int, laddr tcpip.Address, lport uint16, ri, mode, 
 			}
 		}
 		conflict := w.conflict(false, laddr, lport)
-		e := ep.Bind(tcpip.FullAddress{NIC: bnic, Addr: laddr, Port: lport}, nil)
+		baddr := laddr
+		v4only := dual && kind == 0 && mode&128 != 0
+		if v4only {
+			// an IPv6 socket bound to the IPv4-mapped wildcard ::ffff:0.0.0.0: the IPv4 wildcard and nothing else
+			baddr = tcpip.Address("\x00\x00\x00\x00\x00\x00\x00\x00\x00\x00\xff\xff\x00\x00\x00\x00")
+		}
+		e := ep.Bind(tcpip.FullAddress{NIC: bnic, Addr: baddr, Port: lport}, nil)
 		if w.addrOff && laddr == dmLocal[2] {
 			// binding to an address that has been removed: refused, unless it still lingers - not judged either way
 			w.Probes["bind_to_removed_address"]++
@@ -436,6 +443,11 @@ func (w *dmWorld) openAt(kind int, laddr tcpip.Address, lport uint16, ri, mode, 
 		if dual {
 			s.protos = 3
 			w.Probes["dual_stack_sockets"]++
+		}
+		s.v6ep = dual
+		if v4only {
+			s.protos = 1
+			w.Probes["sockets_bound_to_the_mapped_ipv4_wildcard"]++
 		}
 		if bnic != 0 {
 			w.Probes["sockets_bound_to_an_interface"]++
@@ -1005,13 +1017,50 @@ func (w *dmWorld) apply(s Step) {
 		case taken || (ra == sk.raddr && rp == sk.rport):
 			w.Probes["udp_connect_again_refused"]++ // (the identity is in use - by another socket or by this very one)
 		}
+	case "udp6":
+		// an IPv6 datagram for one of the ports: it reaches the dual-stack socket bound to the wildcard address on that
+		// port if there is one, and nobody else - in particular no socket whose binding covers IPv4 only
+		port := dmPorts[s.A%3]
+		var win *dmSock
+		unsure := false
+		for _, sk := range w.socks {
+			if sk.closed || sk.tcp || sk.fake != nil || sk.lport != port || sk.protos != 3 {
+				continue
+			}
+			if sk.raddr != "" || sk.nic == 2 {
+				unsure = true // a dual-stack socket connected to an IPv4 peer, or tied to the other interface
+			}
+			win = sk
+		}
+		w.npkt++
+		payload := dmPayload(w.seed, w.npkt)
+		w.Take()
+		w.Inject(w.S.Link, ipv6.ProtocolNumber, codec.IPv6([]byte(B6), []byte(A6), codec.ProtoUDP, 64, codec.EncodeUDP([]byte(B6), []byte(A6), 9000, port, payload)), "", "", 0)
+		w.Probes["ipv6_datagrams_injected"]++
+		for i, sk := range w.socks {
+			if sk.closed || sk.listener || sk.tcp || sk.fake != nil {
+				continue
+			}
+			v, _, err := sk.ep.Read(nil)
+			if unsure {
+				continue
+			}
+			if err == nil && sk != win {
+				w.demuxFail("delivered-to-wrong-socket", "IPv6 datagram to port %d was delivered to socket %d (bound % x:%d, network protocols %d): its binding does not cover IPv6", port, i, []byte(sk.laddr), sk.lport, sk.protos)
+			} else if err != nil && sk == win {
+				w.demuxFail("not-delivered", "IPv6 datagram to port %d should reach socket %d (dual-stack, bound to the wildcard address) but that socket has nothing to read (%v)", port, i, err)
+			} else if err == nil && !bytes.Equal(v, payload) {
+				w.demuxFail("payload-altered", "socket %d read %d bytes that differ from the IPv6 datagram's payload", i, len(v))
+			}
+		}
+		w.Take()
 	case "mcast":
 		// a UDP socket joins a group through an interface, or drops one of its memberships
 		if s.A < 0 || s.A >= len(w.socks) {
 			break
 		}
 		sk := w.socks[s.A]
-		if sk.closed || sk.tcp || sk.fake != nil || sk.protos == 3 {
+		if sk.closed || sk.tcp || sk.fake != nil || sk.protos == 3 || sk.v6ep {
 			break
 		}
 		if s.C&2 != 0 && len(sk.groups) > 0 {
@@ -1047,6 +1096,9 @@ func (w *dmWorld) next() Step {
 	}
 	if w.cfg.Subnet && r.Chance(0.05) {
 		return Step{Op: "subnet"}
+	}
+	if r.Chance(0.03) {
+		return Step{Op: "udp6", A: r.Intn(3)}
 	}
 	for _, sk := range w.socks {
 		if !sk.closed && sk.reopen != nil && r.Chance(0.04) {
@@ -1133,6 +1185,9 @@ func (w *dmWorld) next() Step {
 				mode |= 16 // through an interface that does not exist
 			case 2:
 				mode |= 32 // dual-stack IPv6 socket
+				if kind == 0 && r.Chance(0.4) {
+					mode |= 128 // ... bound to the IPv4-mapped wildcard
+				}
 			}
 			if r.Chance(0.15) {
 				mode |= 64 // on the port inside the ephemeral range
